@@ -91,7 +91,9 @@ def configs(quick):
         one(f"null[{b}]", {"x0": "null"}, b)
         one(f"uniform-prime-prior[{b}]", {"x0": {"reparameterisation": "rescaletobounds", "prior": "uniform", "update_bounds": False}, "x1": {"reparameterisation": "rescaletobounds", "prior": "uniform", "update_bounds": False}}, b)
         one(f"uniform-prime-prior-update[{b}]", {"rescaletobounds": {"parameters": ["x0", "x1"], "prior": "uniform"}}, b)
-        one(f"pre-log[{b}]", {"x0": {"reparameterisation": "rescaletobounds", "pre_rescaling": "log", "update_bounds": False}}, "log" if b in ("wide", "off") else b)
+        if b in ("wide", "log"):
+            # log is singular at 0: only strictly positive prior intervals
+            one(f"pre-log[{'log' if b == 'wide' else 'dist'}]", {"x0": {"reparameterisation": "rescaletobounds", "pre_rescaling": "log", "update_bounds": False}}, "log" if b == "wide" else "dist")
         one(f"post-logit[{b}]", {"x0": {"reparameterisation": "rescaletobounds", "post_rescaling": "logit", "update_bounds": False}}, b)
     for b in ("2pi", "pmpi", "0pi"):
         one(f"angle[{b}]", {"x0": "angle"}, b)
